@@ -56,6 +56,51 @@ class Hang(BaseException):
     new (an endless loop).  Reported as the observation `crash:Hang`, never as a time-out of the harness."""
 
 
+class cpu_guard:
+    """`with cpu_guard(seconds):` - the body may use at most `seconds` of CPU time of this process (ITIMER_VIRTUAL: the
+    load of the machine does not count); after that `exc` is raised inside it, again every second until the body is left.
+    Catches the endless loop that never touches the socket, which the tick limit cannot see.  Main thread only."""
+    _installed = None
+
+    def __init__(self, seconds: float = 1.0, exc=None):
+        self.seconds = seconds
+        self.exc = exc or Hang
+
+    def __enter__(self):
+        import signal
+        exc = self.exc
+
+        def on_alarm(signum, frame):
+            raise exc("more than the CPU budget of one call: endless loop")
+        signal.signal(signal.SIGVTALRM, on_alarm)
+        signal.setitimer(signal.ITIMER_VIRTUAL, self.seconds, 1.0)
+        return self
+
+    def __exit__(self, *a):
+        import signal
+        signal.setitimer(signal.ITIMER_VIRTUAL, 0)
+        return False
+
+
+# a change that makes (nearly) every call hang would cost the budget once per call of every case: after this many hangs
+# in one process the remaining cases are skipped (the hangs seen are the verdict)
+HANGS = [0]
+HANG_BREAKER = 8
+
+
+class TooManyHangs(Exception):
+    pass
+
+
+def note_hang():
+    HANGS[0] += 1
+
+
+def breaker():
+    if HANGS[0] >= HANG_BREAKER:
+        raise TooManyHangs("skipped: this process has already seen %d calls that did not return" % HANGS[0])
+
+
 TICK_LIMIT = 3000       # select / recv calls within ONE API call; the longest legitimate call makes a few per frame
 _TICKS = [0]
 
@@ -292,6 +337,7 @@ def read_call(c, tval, ack: bool, sync: bool, shape: int):
 
 def run_case(cid: str, case: Dict[str, Any]) -> List[str]:
     """case: timecode, frames [(hdr, payload)], tail, end, cuts, sub (all, [types]), calls [...]"""
+    breaker()
     E = env()
     PC, PM, EX = E["PC"], E["PM"], E["EX"]
     tc = bool(case.get("timecode"))
@@ -348,7 +394,8 @@ def run_case(cid: str, case: Dict[str, Any]) -> List[str]:
         before = sock.pos
         _TICKS[0] = 0
         try:
-            m = read_call(c, tval, ack, sync, len(obs))
+            with cpu_guard():
+                m = read_call(c, tval, ack, sync, len(obs))
             if m is None:
                 r = "none"
             else:
@@ -360,6 +407,7 @@ def run_case(cid: str, case: Dict[str, Any]) -> List[str]:
         except Hang:
             r = "crash:Hang"
             stop = True
+            note_hang()
         except EX.UnknownMessageType as e:
             hh = e.args[1] if len(e.args) > 1 else None
             raw = e.args[2] if len(e.args) > 2 else b""
@@ -659,6 +707,7 @@ def from_json(c: Dict[str, Any]) -> Dict[str, Any]:
 def run_life_case(cid: str, case: Dict[str, Any]) -> List[str]:
     """case: timecode, calls [("connect", {frames, tail, end, cuts}) | ("read", tmo, ack, sync) | ("sub", all, [types])
     | ("disconnect",) | ("sendFail",)]"""
+    breaker()
     E = env()
     PC, PM, EX = E["PC"], E["PM"], E["EX"]
     tc = bool(case.get("timecode"))
@@ -699,7 +748,8 @@ def run_life_case(cid: str, case: Dict[str, Any]) -> List[str]:
             E["queue"].append(sock)
             _TICKS[0] = 0
             try:
-                c.connect("h:1")
+                with cpu_guard():
+                    c.connect("h:1")
                 r = "joined"
             except WouldBlock:
                 r = "blocked"
@@ -707,6 +757,7 @@ def run_life_case(cid: str, case: Dict[str, Any]) -> List[str]:
             except Hang:
                 r = "crash:Hang"
                 stop = True
+                note_hang()
             except EX.AcknowledgementTimeout:
                 r = "ackTimeout"
             except EX.UnknownMessageType:
@@ -733,7 +784,8 @@ def run_life_case(cid: str, case: Dict[str, Any]) -> List[str]:
             before = cur.pos if cur is not None else 0
             _TICKS[0] = 0
             try:
-                m = read_call(c, tval, ack, sync, len(lines))
+                with cpu_guard():
+                    m = read_call(c, tval, ack, sync, len(lines))
                 r = "none" if m is None else f"msg {hexs(mask(bytes(m.header)))} {hexs(bytes(m.data))}"
             except WouldBlock:
                 r = "blocked"
@@ -741,6 +793,7 @@ def run_life_case(cid: str, case: Dict[str, Any]) -> List[str]:
             except Hang:
                 r = "crash:Hang"
                 stop = True
+                note_hang()
             except EX.UnknownMessageType as e:
                 hh = e.args[1] if len(e.args) > 1 else None
                 raw = e.args[2] if len(e.args) > 2 else b""
@@ -769,8 +822,13 @@ def run_life_case(cid: str, case: Dict[str, Any]) -> List[str]:
             if stop:
                 continue
             _TICKS[0] = 0
-            c.disconnect()
-            lines.append("UOBS")
+            try:
+                with cpu_guard():
+                    c.disconnect()
+                lines.append("UOBS")
+            except Hang:
+                lines.append("COBS 0 0 crash:Hang")     # an observation of another kind: the Spec walk reports it
+                stop = True
         elif kind == "sendFail":
             lines.append("CALL sendFail")
             if stop:
@@ -779,7 +837,8 @@ def run_life_case(cid: str, case: Dict[str, Any]) -> List[str]:
                 cur.send_dead = True
             _TICKS[0] = 0
             try:
-                c.send_signal(1234)
+                with cpu_guard():
+                    c.send_signal(1234)
                 r = "joined"        # a send that succeeds is not what this call stands for
             except EX.ConnectionLost:
                 r = "lost"
@@ -788,6 +847,7 @@ def run_life_case(cid: str, case: Dict[str, Any]) -> List[str]:
             except Hang:
                 r = "crash:Hang"
                 stop = True
+                note_hang()
             except Exception as e:  # noqa: BLE001
                 r = f"crash:{type(e).__name__}"
             lines.append(f"COBS 0 {int(bool(c.connected))} {r}")
